@@ -15,6 +15,7 @@ package main
 
 import (
 	"fmt"
+	"sync/atomic"
 	"time"
 
 	kubefake "k8s.io/client-go/kubernetes/fake"
@@ -76,9 +77,10 @@ func evalLife(c *rig.Ctx, lc LifeCase) (fail *failure, inconclusive bool) {
 	}
 	// start A (the lease callback), held inside its Load
 	entered, release := make(chan struct{}), make(chan struct{})
+	var first atomic.Bool
 	sm.setHook(func(kind, name string) bool {
-		if kind != "list" {
-			return false
+		if kind != "list" || !first.CompareAndSwap(false, true) {
+			return false // only the first list is held; the lists of overlapping starts go through
 		}
 		close(entered)
 		select {
